@@ -115,6 +115,11 @@ def gen_shape(ch, tag, classes, pct_ok=True):
         cmds = gp.gen_cmds(ch, ch.int(2, 6), mag=100.0, allow_zc=False, arc_zero=False)
         a["d"] = gp.render(cmds, ch.int(0, 63))
     _paint(ch, a, classes)
+    if ch.coin(0.12):
+        # positions exactly at the default: the writer omits them, the reader must not find them elsewhere
+        for kx, ky in (("x", "y"), ("cx", "cy"), ("x1", "y1")):
+            if kx in a:
+                a[kx], a[ky] = "0", "0"
     if a.get("transform") == "translate(10,20)" and ch.coin(0.4):
         # the translation cancels a coordinate exactly: after reify the attribute is exactly 0
         for kx, ky in (("x", "y"), ("cx", "cy"), ("x1", "y1")):
